@@ -89,6 +89,19 @@ class Exec:
     """call_model(name, args, state) -> list of (retval, cond or None) alternatives.
     retval may be ('variant', idx, payload) for Option-like results."""
 
+    def run_closure_value(self, crate, clos, args, st):
+        """evaluate a closure value ('closure', def id, captured values) on argument values: [(ret, extra conds, events)]"""
+        cb = crate.bodies.get(clos[1])
+        if cb is None:
+            return None
+        pv = {1: ("upvars", {i: v for i, v in enumerate(clos[2])})}
+        for i, a in enumerate(args):
+            pv[2 + i] = a
+        sub = Exec(cb, self.call_model, mem_init=dict(st["mem"]), param_vals=pv, max_paths=50)
+        sub.crate = getattr(self, "crate", None)
+        paths = sub.run()
+        return [(p.ret, list(p.conds), list(p.events)) for p in paths]
+
     def __init__(self, body, call_model, mem_init=None, param_vals=None, max_paths=200):
         self.b = body
         self.call_model = call_model
@@ -193,6 +206,8 @@ class Exec:
                             v = ("variant", rv["vi"], ops[0] if ops else None)
                         else:
                             v = ("adt", rv["adt"], rv["variant"], ops)
+                    elif rv.get("agg") == "closure":
+                        v = ("closure", rv.get("def"), ops)
                     else:
                         v = Opaque("agg")
                 else:
@@ -236,14 +251,14 @@ class Exec:
                 if len(alts) == 1:
                     v, cond = alts[0]
                     if cond is not None:
-                        st["conds"].append(cond)
+                        st["conds"].extend(cond[1]) if cond[0] == "and" else st["conds"].append(cond)
                     self.wr_place(st, t["dest"], v)
                     bb = t["target"]
                 else:
                     for v, cond in alts:
                         st2 = self._fork(st)
                         if cond is not None:
-                            st2["conds"].append(cond)
+                            st2["conds"].extend(cond[1]) if cond[0] == "and" else st2["conds"].append(cond)
                         self.wr_place(st2, t["dest"], v)
                         self._run(t["target"], st2, depth + 1)
                     return
